@@ -231,7 +231,7 @@ def bind_cases(draw, tier):
                                  st.sampled_from(["a", "b"]).map(lambda s: ["*", ["int", 2], ["sym", s]]))) for _ in range(cgen.TABLE[nm][1])]
             perm = draw(st.permutations(list(range(n))))
             ops.append({"g": nm, "p": ps, "mods": [], "q": list(perm[: cgen.TABLE[nm][0]])})
-        m = {k: draw(st.floats(-2, 2, allow_nan=False)) for k in draw(st.lists(st.sampled_from(["a", "b", "c", "zz"]), unique=True))}
+        m = {k: draw(st.one_of(st.floats(-2, 2, allow_nan=False), st.sampled_from([0, 0.0, -0.0, 1]))) for k in draw(st.lists(st.sampled_from(["a", "b", "c", "zz"]), unique=True))}
         tasks.append({"c": {"ops": ops, "width": n}, "map": m, "op": draw(pgen.sums(max_q=n, max_terms=2, zero=False)),
                       "shots": draw(st.sampled_from([None, 0, 10, 77]))})
     return {"tasks": tasks}
